@@ -398,6 +398,8 @@ func classifySite(caller *Func, call *ast.CallExpr) *inlineSite {
 			}
 		case *ast.AssignStmt:
 			if len(p.Rhs) != 1 || (p.Tok != token.DEFINE && p.Tok != token.ASSIGN) {
+				// one value of a tuple assignment (`a, err = nil, h(e)`): its value is computed in front
+				res = hoistSite(caller, call, stack, inLoop)
 				return false
 			}
 			if ifs, ok := grand.(*ast.IfStmt); ok && ifs.Init == ast.Stmt(p) {
@@ -672,6 +674,21 @@ func (w *World) inlineText(h *Func, s *inlineSite, serial int, overlay map[strin
 				}
 				obj := info.ObjectOf(rid)
 				if v, ok := obj.(*types.Var); ok && !v.IsField() && v.Parent() == info.Scopes[h.Decl.Type] && v.Pos() >= bodyStart && types.Identical(v.Type(), cinfo.Defs[lid].Type()) {
+					// an early return in front of the local's declaration would assign the caller's variable before
+					// it exists (the guard ifs become if/else and the declaration moves into a nested block)
+					early := false
+					ast.Inspect(h.Decl.Body, func(y ast.Node) bool {
+						if _, isLit := y.(*ast.FuncLit); isLit {
+							return false
+						}
+						if r, ok := y.(*ast.ReturnStmt); ok && r.Pos() < v.Pos() {
+							early = true
+						}
+						return true
+					})
+					if early {
+						continue
+					}
 					dup := false
 					for _, o := range forceName {
 						_ = o
